@@ -96,12 +96,12 @@ Section Engine.
 
   (* the whole pipeline: source resolution, validation, verdict *)
   Theorem run_src_exact q sq s f :
-    q_global_on_covered q = false -> q_trailing_slash_depth q = false ->
+    q_global_on_covered q = false -> q_trailing_slash_depth q = false -> q_backslash_separator q = false ->
     q_rules_toplevel_ignored sq = false -> q_rules_do_not_override_file sq = false ->
     src_ok s = true -> cfg_ok (spec_resolve s) = true ->
     forget (run_src valid matches q sq s f) = spec_src valid matches s f.
   Proof.
-    intros H1 H5 S1 S2 Hs Hc. unfold run_src, spec_src. rewrite (resolve_exact sq s S1 S2 Hs).
+    intros H1 H5 H6 S1 S2 Hs Hc. unfold run_src, spec_src. rewrite (resolve_exact sq s S1 S2 Hs).
     apply run_exact; assumption.
   Qed.
 
@@ -110,9 +110,10 @@ Section Engine.
     (s_rules s = None \/ (s_file s = None /\ forall x, s_rules s <> Some (RToplevel x))) ->
     no_trailing_slash (spec_resolve s) = true ->
     (spec_rule (relpath f) (dirs_of (spec_resolve s)) = None \/ (c_gdeny (spec_resolve s) = None /\ c_gpat (spec_resolve s) = None)) ->
+    no_backslash (relpath f) = true ->
     forget (run_src valid matches q sq s f) = spec_src valid matches s f.
   Proof.
-    intros Hs Hc Hd Ht Hg. unfold run_src, spec_src. rewrite (resolve_exact_outside_defects sq s Hs Hd).
+    intros Hs Hc Hd Ht Hg Hb. unfold run_src, spec_src. rewrite (resolve_exact_outside_defects sq s Hs Hd).
     apply run_exact_outside_defects; assumption.
   Qed.
 End Engine.
